@@ -206,8 +206,12 @@ class Excel_PairTabulation(PairTabulation_AbstractBase):
     """Write tabulation to the file object `fp` (note: fp should be opened in binary mode).
 
     :param fp: File object into which data should be written."""
-    wb = self.workbook
+    # As the other tabulations do, write() tabulates the potentials as they are now: a workbook
+    # kept from an earlier write() or access to .workbook may no longer describe them.
+    self._workbook = None
+    self._write_workbook(self.workbook, fp)
 
+  def _write_workbook(self, wb, fp):
     from tempfile import NamedTemporaryFile
     with NamedTemporaryFile() as tmp:
         wb.save(tmp.name)
